@@ -445,7 +445,11 @@ func ReplayExport(ctx *core.Ctx, real *Real, e *Export) {
 					if cs.Kind != "contract" {
 						lexact++
 					}
-					if !ok {
+					if !ok && len(row.Chain) == 2 && HTMLCanon(mid) != HTMLCanon(cs.Mid) {
+						// the first directive is the one that deviates
+						report(ctx, "go", row.Chain[:1], val, s, "", mid, "differs-from-reference",
+							"reference result of the first directive: "+strconv.Quote(cs.Mid))
+					} else if !ok {
 						report(ctx, "go", row.Chain, val, s, mid, out, "differs-from-reference",
 							"reference result (pinned, kind="+cs.Kind+"): "+strconv.Quote(cs.Out))
 					}
@@ -710,6 +714,11 @@ func RandomTraces(ctx *core.Ctx, real *Real, e *Export, n int) {
 			}
 			if !TLCSafe(s) || !TLCSafe(out) || !TLCSafe(mid) {
 				continue // judged by the Go decoders only
+			}
+			if len(chain) == 2 {
+				if _, e := real.RenderOff(ChainText(chain[:1]), x); e != nil {
+					continue // the first directive fails by itself: judged as a single directive
+				}
 			}
 			lines = append(lines, traceLine{chain, val, errored, out, mid})
 		}
